@@ -2,7 +2,7 @@
 (* Implementation-shaped model of the dfir_pipes push combinators, composed with the PushPipe
    monitor.  Every combinator node keeps the fields of its Rust struct (FlatMap.buffer,
    Persist.{buf, replay_idx}, Accumulate.phase, Sort.{buf, sorted}, FoldKeyed.{map, flush_items,
-   flush_idx}, FilterMapAsync.{buffer, resolved}, FlatMapStream.buffer{stream, item},
+   flush_idx}, FilterMapAsync.{buffer, resolved}, StatePush.state_sent, FlatMapStream.buffer{stream, item},
    ResolveFutures queue, SendPush.pull_ended); one public call (poll_ready / start_send /
    poll_finalize) on a node is the operator Call, transcribed from the method body: `ready!`
    becomes an early return of ret = 0, `ready_both!` evaluates both sides, `while` loops are
@@ -206,10 +206,10 @@ StreamDrain(n, S) ==
 FmaReady(n, S) ==
     LET c == pipe[n].c[1]  me == S.st[n] IN
     IF me.res # <<>>
-    THEN \* `this.resolved.take()` -- the value leaves the struct before `ready!`
-         LET R == Call(c, "r", 0, [S EXCEPT !.st[n].res = <<>>]) IN
+    THEN \* `if this.resolved.is_some() { ready!(next.poll_ready); take; start_send; return Done }`
+         LET R == Call(c, "r", 0, S) IN
          IF R.ret = 0 THEN R
-         ELSE LET R2 == Call(c, "s", me.res[1], R.S) IN Ret(R2.S, 1)
+         ELSE LET R2 == Call(c, "s", me.res[1], [R.S EXCEPT !.st[n].res = <<>>]) IN Ret(R2.S, 1)
     ELSE IF me.fut # <<>>
     THEN IF me.fut[2] > 0 THEN Ret(AuxEv(S, 1), 0)
          ELSE LET o == FilterMapF(me.fut[1])
@@ -314,9 +314,13 @@ Call(n, op, x, S) ==
               [] op = "f" -> LET R == Replay(n, S) IN IF R.ret = 0 THEN R ELSE Call(c[1], "f", 0, R.S))
       [] k = "state_push" ->
             (CASE op = "r" -> AllOf(c, 1, "r", S, 1)
-              [] op = "s" -> IF x > me THEN Call(c[1], "s", x, [S EXCEPT !.st[n] = x]) ELSE Ret(S, 1)
-              [] op = "f" -> \* `state_push.start_send(state.clone())` on EVERY poll_finalize call
-                    LET R == Call(c[2], "s", me, S) IN AllOf(c, 1, "f", R.S, 1))
+              [] op = "s" -> IF x > me.lat THEN Call(c[1], "s", x, [S EXCEPT !.st[n].lat = x]) ELSE Ret(S, 1)
+              [] op = "f" -> \* the state is sent once, after state_push reported ready; then ready_both! finalize
+                    LET R0 == IF me.sent THEN Ret(S, 1)
+                              ELSE LET R == Call(c[2], "r", 0, S) IN
+                                   IF R.ret = 0 THEN R
+                                   ELSE Call(c[2], "s", me.lat, [R.S EXCEPT !.st[n].sent = TRUE])
+                    IN IF R0.ret = 0 THEN R0 ELSE AllOf(c, 1, "f", R0.S, 1))
       [] k = "filter_map_async" ->
             (CASE op = "r" -> FmaReady(n, S)
               [] op = "s" -> IF me.fut # <<>> \/ me.res # <<>>
@@ -350,7 +354,7 @@ InitNode(nd, ins) ==
       [] nd.k = "sort" -> [buf |-> <<>>, sorted |-> FALSE]
       [] nd.k \in {"fold_keyed", "reduce_keyed"} -> [map |-> <<>>, flush |-> <<>>, idx |-> 0]
       [] nd.k = "persist" -> [buf |-> Tail(nd.p), idx |-> IF nd.p[1] = 1 THEN 0 ELSE Len(Tail(nd.p))]
-      [] nd.k = "state_push" -> nd.p[1]
+      [] nd.k = "state_push" -> [lat |-> nd.p[1], sent |-> FALSE]
       [] nd.k = "filter_map_async" -> [fut |-> <<>>, res |-> <<>>]
       [] nd.k \in {"flat_map_stream", "flatten_stream"} -> [has |-> FALSE, scr |-> <<>>, item |-> <<>>]
       [] nd.k = "resolve_futures" -> [q |-> <<>>]
